@@ -86,11 +86,25 @@ func isStdPkg(p *types.Package) bool {
 func buildOverlay(repoDir, verifDir string) (map[string][]byte, []string, error) {
 	ov := map[string][]byte{}
 	var pkgDirs []string
-	zz, err := os.ReadFile(filepath.Join(verifDir, "zzverif", "zzverif.go"))
+	zzroot := filepath.Join(verifDir, "zzverif")
+	err := filepath.Walk(zzroot, func(path string, info os.FileInfo, err error) error {
+		if err != nil {
+			return err
+		}
+		if info.IsDir() || !strings.HasSuffix(path, ".go") {
+			return nil
+		}
+		rel, _ := filepath.Rel(zzroot, path)
+		data, err := os.ReadFile(path)
+		if err != nil {
+			return err
+		}
+		ov[filepath.Join(repoDir, "zzverif", rel)] = data
+		return nil
+	})
 	if err != nil {
 		return nil, nil, err
 	}
-	ov[filepath.Join(repoDir, "zzverif", "zzverif.go")] = zz
 	root := filepath.Join(verifDir, "harness")
 	err = filepath.Walk(root, func(path string, info os.FileInfo, err error) error {
 		if err != nil {
